@@ -16,7 +16,7 @@
      fmtp      protojson text of a message (MessageToString), by its marshalled bytes
      compress / decompress / encrypt / decrypt             (zlib, block cipher) *)
 From Coq Require Import ZArith List Bool.
-From FV Require Import Generated.Consts Lib.Wrap Lib.LE Lib.Varint Lib.Dec.
+From FV Require Import Generated.Consts Lib.Wrap Lib.LE Lib.Varint Lib.Dec Lib.Float.
 Import ListNotations.
 Open Scope Z_scope.
 
@@ -50,6 +50,16 @@ Record oracles : Type := mkOr {
   fmtf : Z -> list Z;
   parsef : list Z -> option Z;
   fmtp : list Z -> list Z }.
+
+(* The conversions Go performs in hardware, modelled exactly on bit patterns (Lib/Float.v):
+   float32 -> float64 widening for every pattern, int64 -> float64 with round-to-nearest-even,
+   float64 -> int64 truncation where Go defines it.  What remains external: the result of
+   int64(float64) for NaN / infinities / magnitudes >= 2^63 (f2i_oor), and strconv / protojson. *)
+Definition go_oracles (f2i_oor : Z -> Z) (fmt_f : Z -> list Z) (parse_f : list Z -> option Z)
+           (fmt_p : list Z -> list Z) : oracles :=
+  mkOr widen32
+       (fun w => match Float.f2i w with Some z => z | None => f2i_oor w end)
+       Float.i2f fmt_f parse_f fmt_p.
 
 (* SetBody: every integer kind becomes int64 (uint and uint64 wrap), float32 widens *)
 Definition set_body (o : oracles) (v : gov) : body :=
